@@ -6,7 +6,7 @@ from harness.props._common import run_eval, replay_eval
 from harness.props.c05 import sgates_to_coq, pat_of
 
 PROPS_FILE = "P_C15"
-COQ_TARGETS = ["CaseLib", "CaseLibMcx", "IrProps", "IrPropsRot", "TopDownModel"]
+COQ_TARGETS = ["CaseLib", "CaseLibMcx", "IrProps", "IrPropsRot", "TopDownModel", "LdmcuCore", "Placed"]
 RULE = ("correspondence on the IR for McxVchainDirty / LinearMcx (k = 1..10/20): flatten(definition.inverse()) = IrProps.sinv_list(model), "
         "the model instance is well-formed (premise of C15_inverse_*), and appending the definition on a shuffled ordered subset of a "
         "larger host circuit yields map (relabel sigma) (model) with every other host qubit unmentioned (premise of C15_spectator); direct "
@@ -135,7 +135,7 @@ def replay(ctx, case):
 
 
 MANIFEST = dict(
-    text='Proof (PARTIAL): on the circuit IR of the multi-controlled-X generators, the reversed list of per-gate inverses undoes a well-formed circuit in either order, and a circuit commutes with fixing the value of any qubit it does not mention (C15_inverse_right/left, C15_spectator). Tie: for McxVchainDirty/LinearMcx and TopDownInitialize, flatten(definition.inverse()) = inverse list of the model, well-formedness of the instance, and flatten(host with the definition appended on a shuffled qubit list) = map relabel (model), compared inside Coq. Every other class, declared widths, inputs-untouched and determinism are evaluated.',
+    text='Proof (PARTIAL): on the circuit IR of the multi-controlled-X generators, the reversed list of per-gate inverses undoes a well-formed circuit in either order, and a circuit commutes with fixing the value of any qubit it does not mention (C15_inverse_right/left, C15_spectator); placement through any injective qubit map (C15_placed_any); the same inverse law for the alphabet of Ldmcu, controlled powers of a one-parameter group (C15_ldmcu_ir_inverse). Tie: for McxVchainDirty/LinearMcx and TopDownInitialize, flatten(definition.inverse()) = inverse list of the model, well-formedness of the instance, and flatten(host with the definition appended on a shuffled qubit list) = map relabel (model), compared inside Coq. Every other class, declared widths, inputs-untouched and determinism are evaluated.',
     note="Modelled, not verified: Qiskit append/compose/inverse; all classes other than the mcx family; 'inputs untouched' and determinism are run-time checks only.",
     technique='Coq proof (per-gate inverse and commutation lemmas lifted over lists) + IR correspondence (vm_compute) + evaluation with spectators in superposition',
     design_ref='DESIGN.md section 4, C15')
